@@ -10,6 +10,7 @@ import (
 	"strings"
 	"syscall"
 	"testing"
+	"time"
 
 	"github.com/hedzr/logg/slog"
 	"github.com/hedzr/logg/slog/verifharness/vlib"
@@ -40,6 +41,11 @@ type scenario struct {
 	// Depth: 0 the logger is a root; 1 / 2: it is a child / grandchild of a root that has recording writers of its own
 	// (and is at level Always): nothing may ever arrive there
 	Depth int
+	// Wrapped: every destination is handed over as slog.NewLogWriter(w), the exported wrapper for plain io.Writers
+	Wrapped bool
+	// Via: how a record is issued: 0 LogAttrs, 1 through the std log bridge NewLogLogger(logger, severity).Print,
+	// 2 through the exported WriteInternal the bridge uses. The statement speaks of the record, not of its entry point
+	Via int
 }
 
 func failure(kind int) error {
@@ -59,6 +65,10 @@ func failure(kind int) error {
 	}
 	return vlib.ErrInjected
 }
+
+// returnDeadline: how long one logging call may take before it is reported as not returning. A call does a handful
+// of Writes into memory; the deadline only has to be far beyond any scheduling delay of a loaded machine.
+const returnDeadline = 60 * time.Second
 
 const cascadeLimit = 200 // Write attempts within ONE call before the guard trips
 
@@ -112,6 +122,12 @@ func run(t vlib.TB, test string, sc scenario) {
 	for i := range pool {
 		pool[i] = vlib.NewRec(log, i, i)
 	}
+	handle := func(w int) io.Writer {
+		if sc.Wrapped {
+			return slog.NewLogWriter(pool[w])
+		}
+		return pool[w]
+	}
 	lg := slog.New("c13")
 	if sc.Depth > 0 {
 		root := slog.New("c13root").SetWriter(pool[nw]).SetErrorWriter(pool[nw+1]).SetLevel(slog.AlwaysLevel)
@@ -128,21 +144,21 @@ func run(t vlib.TB, test string, sc scenario) {
 	}
 	for i, w := range sc.Cfg.Normal {
 		if i == 0 {
-			lg.SetWriter(pool[w])
+			lg.SetWriter(handle(w))
 		} else {
-			lg.AddWriter(pool[w])
+			lg.AddWriter(handle(w))
 		}
 	}
 	for i, w := range sc.Cfg.Error {
 		if i == 0 {
-			lg.SetErrorWriter(pool[w])
+			lg.SetErrorWriter(handle(w))
 		} else {
-			lg.AddErrorWriter(pool[w])
+			lg.AddErrorWriter(handle(w))
 		}
 	}
 	for lvl, l := range sc.Cfg.Leveled {
 		for _, w := range l {
-			lg.AddLevelWriter(slog.Level(lvl), pool[w])
+			lg.AddLevelWriter(slog.Level(lvl), handle(w))
 		}
 	}
 	lg.SetLevel(sc.Cfg.L)
@@ -171,8 +187,8 @@ func run(t vlib.TB, test string, sc scenario) {
 	}
 
 	desc := func() string {
-		return fmt.Sprintf("config{normal=%v error=%v leveled=%v level=%v format=%s depth-below-a-root-with-own-writers=%d} calls=%v bits=%v perm=%v failing-writes-return=%q suffix=%v",
-			sc.Cfg.Normal, sc.Cfg.Error, sc.Cfg.Leveled, sc.Cfg.L, sc.Cfg.Format, sc.Depth, sc.Calls, sc.Bits, sc.Perm, failure(sc.ErrKind), sc.Suffix)
+		return fmt.Sprintf("config{normal=%v error=%v leveled=%v level=%v format=%s depth-below-a-root-with-own-writers=%d wrapped-by-NewLogWriter=%v issued-via=%d} calls=%v bits=%v perm=%v failing-writes-return=%q suffix=%v",
+			sc.Cfg.Normal, sc.Cfg.Error, sc.Cfg.Leveled, sc.Cfg.L, sc.Cfg.Format, sc.Depth, sc.Wrapped, sc.Via, sc.Calls, sc.Bits, sc.Perm, failure(sc.ErrKind), sc.Suffix)
 	}
 
 	labels := map[string]bool{}
@@ -180,19 +196,36 @@ func run(t vlib.TB, test string, sc scenario) {
 		before := log.Len()
 		inCall = 0
 		tok := fmt.Sprintf("rec-%s-%d-tok", phase, n)
-		func() {
-			defer func() {
-				if p := recover(); p != nil {
-					t.Fatalf("C13 %s: call #%d (%s, severity %v) panicked: %v", desc(), n, phase, r, p)
-				}
-			}()
-			lg.LogAttrs(context.Background(), r, tok, "n", n)
+		// the call runs on a goroutine of its own: a call that never returns (a lock taken twice) is reported after
+		// returnDeadline instead of hanging the run. Nothing else runs meanwhile, so the fault schedule stays sequential
+		done := make(chan any, 1)
+		go func() {
+			defer func() { done <- recover() }()
+			switch sc.Via {
+			case 1:
+				slog.NewLogLogger(lg, r).Print(tok)
+			case 2:
+				_, _ = lg.(slog.LogLoggerAware).WriteInternal(context.Background(), r, 0, []byte(tok+"\n"))
+			default:
+				lg.LogAttrs(context.Background(), r, tok, "n", n)
+			}
 		}()
+		select {
+		case p := <-done:
+			if p != nil {
+				t.Fatalf("C13 %s: call #%d (%s, severity %v) panicked: %v", desc(), n, phase, r, p)
+			}
+		case <-time.After(returnDeadline):
+			t.Fatalf("C13 %s: call #%d (%s, severity %v) has not returned after %v (%d Write attempts so far in this call)", desc(), n, phase, r, returnDeadline, inCall)
+		}
 		if tripped {
 			t.Fatalf("C13 %s: call #%d (%s, severity %v) caused more than %d Write attempts - cascade", desc(), n, phase, r, cascadeLimit)
 		}
 		evs := log.Snapshot()[before:]
 		admit := model.Admit(sc.Cfg.L, r, debug)
+		if sc.Via == 2 {
+			admit = true // WriteInternal is the half behind the gate (the bridge asks Enabled first), like WriteThru
+		}
 		want := dest(sc.Cfg, r)
 		if !admit {
 			want = nil
@@ -376,6 +409,8 @@ func genScenario(t *rapid.T) scenario {
 	sc.Suffix = rapid.SliceOfN(rapid.SampledFrom(vlib.Builtins), 1, 6).Draw(t, "suffix")
 	sc.ErrKind = rapid.SampledFrom([]int{0, 0, 0, 1, 2, 3, 4, 5, 6}).Draw(t, "errorKind")
 	sc.Depth = rapid.SampledFrom([]int{0, 0, 1, 2}).Draw(t, "depth")
+	sc.Wrapped = rapid.IntRange(0, 3).Draw(t, "wrappedByNewLogWriter") == 0
+	sc.Via = rapid.SampledFrom([]int{0, 0, 0, 1, 2}).Draw(t, "issuedVia")
 	return sc
 }
 
